@@ -62,6 +62,9 @@ def _correspondence_once(ctx, rep=0):
     # permutations, wrappers, UMNN): the numeric clause is checked directly, float32 vs the float64 twin
     before = len(ctx.failing)
     direct(ctx, oracles.extra_entries(), count=True)
+    # ... and on the model-covered entries too: implementation(float32) = model(Float32) and implementation(float64) = model(Float)
+    # say nothing about float32 vs float64 (a formula that is -inf in BOTH the float32 code and the Float32 model agrees perfectly)
+    direct(ctx, E, count=True)
     for f in ctx.failing[before:]:
         if not ctx.is_known(f['match']):
             ctx.disagree('C19/direct-f32-vs-f64', f['case'], f['what'], 'float32 within single-precision accuracy of the float64 twin', f['what'])
@@ -94,6 +97,8 @@ def direct(ctx, entries, count=False):
                     if inverse and (e.name.startswith('Squeeze') or 'UMNN' in e.name or e.extra.get('train')):
                         continue   # UMNN: independently drawn points need not lie in the range reachable by the bisection bracket
                     x32 = R.make_inputs(e, 3, gen, torch.float32, inverse)
+                    if e.kind == 'nonlin' and getattr(e, 'dom_fwd', None) is None and not inverse and x32.numel() >= 6:
+                        fl = x32.view(-1); fl[0] = 9.0; fl[1] = 17.0; fl[2] = -17.0; fl[3] = 6.5    # moderate, not small, magnitudes
                     if e.extra.get('train'):
                         # training-mode statistics on data whose mean is large relative to its spread (moderate magnitudes)
                         t32 = tcorr.build(e, gen, torch.float32, regime); t64 = copy.deepcopy(t32).double()
